@@ -14,9 +14,19 @@ from ..exact import NEWTON_COTES, enc_rule1, rand_rule
 from ..qnum import Q
 from ..slchecks import make_curve
 from .. import numref
-from .C04 import translate_formulas as translate  # noqa: F401  (ip_tik is one of the generated formulas)
+from .C04 import translate_formulas  # (ip_tik is one of the generated formulas)
+from . import C03 as _C03
 
-PROP_MODS = ['Stbem.Props.C08']
+# Props/C03Problems.lean: the closed-form potentials of problems.py (regenerated from the source) ARE the heat-kernel
+# potentials of the generated u0 over the domain rectangles, solve the heat equation and take the initial value u0
+PROP_MODS = ['Stbem.Props.C08', 'Stbem.Props.C03Problems']
+
+
+def translate(res):
+    translate_formulas(res)
+    _C03.translate_problems(res)
+
+
 RULE = ('tie (exact): the REAL InitialOperator (real constructor, real <domain>BoundaryRefined factories of src/initial_mesh.py) runs '
         'linform on Q numbers - rule constructor log_quadrature_scheme replaced by small random rational rules, exp1 / FPI_INV / np.pi '
         'by rational or polynomial stand-ins, math.fsum by an exact sum (harness process only) - and the load AND the per-cell '
@@ -26,12 +36,15 @@ RULE = ('tie (exact): the REAL InitialOperator (real constructor, real <domain>B
         'polynomial and rational u0, assertion cases (non-dyadic piece, diagonal, edge shared by two root cells); linform_vector = map; '
         'instance of the Lean theorem linform_eq_integral_poly on the real code: exact Newton-Cotes rule + polynomial kernel => '
         'load = exact integral (Fractions). Kept from before: polynomial stand-in for exp1 in floats vs closed-form integral (1e-10), '
-        'generated ip_tik validated against the Python function. search: u0 = 1 and the sine product against the '
+        'generated ip_tik validated against the Python function; the functions of problems.py (closed forms M0u0, u0, ...) '
+        'regenerated into Lean and validated by exact execution (as in C03). search: u0 = 1 and the sine product against the '
         'closed-form potentials of problems.py integrated over the element (1e-5), linearity in u0, additivity under '
         'splitting, pointwise evaluate() for t >= 0.05 side^2 (1e-5). non-trivial = a call with >= 2 cell classes / every float case; '
         'distinct = (domain, segment, time interval, u0, kernel, rule).')
 TRUSTED = [
     'Lean 4.33 kernel; axioms propext, Classical.choice, Quot.sound only',
+    'translate/problemdefs.py (ast of problems.py; validated on every run by exact execution of the real functions); the two '
+    'complex-erf closed forms of the Smooth problems are translated and tied but have no potential theorem (search only)',
     'hand-written model lean/Stbem/Model/InitialPotential.lean (on top of the quadtree model of C16 and the rule model of C15), tied '
     'to src/initial_potential.py by the exact correspondence (harness/checks/C08.py, Driver/InitPotCmd.lean); modelled rather than '
     'verified: Vertex identity = coordinates, set iteration order of leaf_elements (contributions are compared sorted by element '
@@ -510,6 +523,7 @@ def correspond(res, tier):
     bad = validate(res, seed_rng(res.seed, 'C08f'), ['ip_tik'], 40)
     for b in bad[:2]:
         res.broken_obligation('translator validation: generated ip_tik and Python time_integrated_kernel differ', repr(b))
+    _C03.correspond_problems(res, tier)   # generated terms of problems.py == the running functions (exact)
     try:
         correspond_exact(res, tier)
     except Exception as exc:  # noqa: BLE001 - the real code cannot be run exactly any more: the tie is broken
